@@ -492,6 +492,24 @@ def replay_counterexample(pid, crate, h, outdir):
 def replay_file(path):
     rec = json.load(open(path))
     crate = rec["crate"]
+    if rec.get("test_filter"):
+        # a native demonstration test of the harness crate (known findings, non-termination)
+        cwd = prepare_crate(crate)
+        env = dict(ENV)
+        env["CARGO_TARGET_DIR"] = os.path.join(TARGET_ROOT, "native")
+        p = subprocess.run(["cargo", "test", "--offline", "--lib", rec["test_filter"], "--", "--nocapture", "--include-ignored"],
+                           cwd=cwd, env=env, capture_output=True, text=True, timeout=1800)
+        out = p.stdout + p.stderr
+        print(out[-3000:])
+        ran = re.search(r"running [1-9]\d* tests?", out) is not None
+        if not ran:
+            print("REPLAY: could not run")
+            return 2
+        if "test result: FAILED" in out:
+            print("REPLAY: violation reproduced natively (property=%s harness=%s input=%s)" % (rec["property_id"], rec["harness"], rec.get("input")))
+            return 1
+        print("REPLAY: the stored demonstration no longer fails")
+        return 0
     scratch = scratch_crate(crate, "manual")
     tests = rec.get("tests") or []
     for t in tests:
@@ -538,7 +556,8 @@ def make_native_replay(crate, test_filter, input_desc):
         os.makedirs(os.path.join(REPLAYS, pid), exist_ok=True)
         rpath = os.path.join(REPLAYS, pid, h.short + ".json")
         json.dump({"property_id": pid, "crate": crate, "harness": h.name, "kind": "native demonstration",
-                   "native_test": "cargo test --lib %s -- --ignored (harness/%s)" % (test_filter, crate), "input": input_desc,
+                   "native_test": "cargo test --lib %s -- --ignored (harness/%s)" % (test_filter, crate), "test_filter": test_filter,
+                   "input": input_desc,
                    "reproduced": bool(failed), "tail": out[-1500:]}, open(rpath, "w"), indent=1)
         return (True if failed else (False if ran else None)), rpath
     return hook
